@@ -41,7 +41,9 @@ if mods:
                          'LbzVerif.Props.C12.inblk_not_freed_while_attached',
                          'LbzVerif.Props.C12.expand_release_in_footprint',
                          'LbzVerif.Props.C12.expand_step_annotated_partial',
-                         'LbzVerif.Props.C12.expand_step_annotated'])
+                         'LbzVerif.Props.C12.expand_step_annotated',
+                         'LbzVerif.Props.C12.expand_footprint_thread',
+                         'LbzVerif.Props.C12.expand_race_free_sections'])
 sys.path.insert(0, os.path.dirname(os.path.abspath(__file__)))
 import inproc  # noqa: E402
 inproc.run_libs(ck, ['w14_race'])
